@@ -114,6 +114,19 @@ CHECKS['C05'] = dict(
     note='Trusted: Lean kernel/standard axioms; differential tie; the Python TSDL parser/CTF reader. Known finding F9.',
     design='5 (C05), 3.2')
 
+CHECKS['C17'] = dict(
+    engine='h-runtime',
+    technique='Lean 4 proof (frame/projection/commutation over a system of any number of contexts; disjoint-footprint '
+              'commutation on a sequentially consistent memory) + nm symbol-class inspection of the compiled generated '
+              'object + two-context interleaving differential on the C tracer',
+    text='Partial by nature. Proved: a call on one context changes no other context, every interleaving gives each '
+         'context the state it reaches alone, calls on distinct contexts commute, disjoint store footprints commute on '
+         'shared memory. The premise "a step takes exactly one context" is tied to the code by the symbol table of the '
+         'compiled object (no writable object) and by interleaved two-context runs compared with solo runs. Not '
+         'modelled: weak hardware memory models (TSan two-thread run in the thorough tier is search, not proof).',
+    note='Trusted: Lean kernel/standard axioms; gcc/nm; the harness.',
+    design='5 (C17), 3.2')
+
 NOT_APPLICABLE = {
 }
 
